@@ -68,6 +68,7 @@ UNKNOWN_SCOPE = {
     "C07_Premise": ["divu"], "C07_SignStructure": ["Mdiff", "Mup", "Msrc"], "C07_Hull": ["steps"],
     "C06_Steady": ["steady"],
     "C01_ClosedStepCentral": ["integrals"], "C01_ClosedStepUpwind": ["integrals"], "C01_ClosedStepExplicit": ["integrals"],
+    "C01_ClosedStepExplicitUpdate": ["integrals"],
     "C08_Geometry": ["none"], "C08_Diffusion": ["Mdiff", "B.Mdiff"], "C08_Central": ["Mconv", "B.Mconv"],
     "C08_Upwind": ["Mup", "B.Mup"], "C08_Ghost": ["ghost", "B.ghost"], "C08_Tvd": ["tvdnamed", "B.tvdnamed"],
     "C08_Solve": ["r_solve", "B.r_solve"],
@@ -90,6 +91,7 @@ TARGETED = {
     # later integrals are compared with the first one, the integral of the small-rational initial data (always
     # liftable, else the sequence is dropped): an unliftable later value differs from it
     "C01_ClosedStepCentral": ["integrals"], "C01_ClosedStepUpwind": ["integrals"], "C01_ClosedStepExplicit": ["integrals"],
+    "C01_ClosedStepExplicitUpdate": ["integrals"],
 }
 
 
